@@ -720,8 +720,15 @@ func (fc *FnCtx) doInvoke2(cc *ssa.CallCommon, recv Val, it types.Type, mname, i
 			}
 			env.resName = c.Results
 			env.st, env.old = pre, pre
-			for i, r := range c.Requires {
-				fc.obligeAt(pre, "pre", fmt.Sprintf("%s!r%d", shortCallee(key), i+1), implies(cond, env.evalBool(r)), pos, "precondition of "+key)
+			if sealed {
+				for i, r := range c.Requires {
+					fc.obligeAt(pre, "pre", fmt.Sprintf("%s!r%d", shortCallee(key), i+1), implies(cond, env.evalBool(r)), pos, "precondition of "+key)
+				}
+			} else {
+				// dispatch through an interface that foreign code can implement (io.Closer, io.ReaderAt, ...):
+				// an in-repo object that reached it is assumed to be a well-formed instance (its method's precondition
+				// is a well-formedness predicate of the receiver); listed in the trusted base
+				fc.noteTrusted("objects reaching " + ikey + " are well-formed instances: precondition of " + key + " assumed")
 			}
 			env.st, env.old = post, pre
 			env.results = splitResults(res, cd.fn.Signature.Results())
